@@ -199,4 +199,29 @@ theorem drain_dead (fails : Nat → Bool) : ∀ (m : Nat) (t : St), t.alive = fa
   | zero => intro t _; rfl
   | succ m _ => intro t ht; simp [drain, handle, ht]
 
+/-- the handler thread has ended once it was given as many iterations as there were queued events -/
+theorem drain_ended (fails : Nat → Bool) : ∀ (n : Nat) (s : St), s.queue.length ≤ n → threadEnded (drain fails n s) = true := by
+  intro n
+  induction n with
+  | zero =>
+    intro s h
+    have : s.queue = [] := List.eq_nil_of_length_eq_zero (Nat.le_zero.mp h)
+    simp [drain, threadEnded, this]
+  | succ n ih =>
+    intro s h
+    cases ha : s.alive with
+    | false => simp [drain, handle, ha, threadEnded]
+    | true =>
+      cases hq : s.queue with
+      | nil => simp [drain, handle, ha, hq, threadEnded]
+      | cons e q =>
+        have hlen : q.length ≤ n := by rw [hq] at h; simpa using h
+        cases hf : fails e with
+        | true =>
+          simp only [drain, handle, ha, hq, hf, if_true]
+          exact ih _ hlen
+        | false =>
+          simp only [drain, handle, ha, hq, hf, if_true, Bool.false_eq_true, if_false]
+          exact ih _ hlen
+
 end LccModel.EM
